@@ -1,4 +1,5 @@
 import Gedcom.Model.Compare
+import Gedcom.Model.Float64
 import Driver.Util
 namespace Driver
 open Gedcom
@@ -31,6 +32,21 @@ def handleDates (cmd : String) (rest : List String) : Option String :=
       let a : Date := ⟨d1, m1, y1⟩
       let b : Date := ⟨d2, m2, y2⟩
       some s!"{b2s (a.isBefore b)}{b2s (a.isAfter b)}{b2s (!(a.isBefore b) && !(a.isAfter b))}"
+    | _ => some "bad-op"
+  | "yearsf" =>
+    -- yearsf d m y : Date.Years() as the binary64 value itself, in lowest terms mant/2^frac
+    match parseNats rest with
+    | some [d, m, y] =>
+      let v := F64.normalize (F64.years ⟨d, m, y⟩)
+      some s!"{v.mant} {v.frac}"
+    | _ => some "bad-op"
+  | "beforef" =>
+    -- beforef d m y d m y : IsBefore, IsAfter decided on the binary64 values (no inconclusive ties)
+    match parseNats rest with
+    | some [d1, m1, y1, d2, m2, y2] =>
+      let a := F64.years ⟨d1, m1, y1⟩
+      let b := F64.years ⟨d2, m2, y2⟩
+      some s!"{b2s (decide (F64.lt a b))}{b2s (decide (F64.lt b a))}"
     | _ => some "bad-op"
   | "minmax" =>
     match parseNats rest with
